@@ -4,12 +4,13 @@ from ..contracts_api import ContractDB
 
 def build_db():
     db = ContractDB()
-    from . import render, html, attrs, children, helpers
+    from . import render, html, attrs, children, helpers, tagify
     render.register(db)
     html.register(db)
     attrs.register(db)
     children.register(db)
     helpers.register(db)
+    tagify.register(db)
     return db
 
 
@@ -29,6 +30,9 @@ def extra_lemmas(ctx):
                   why="after the in-place conversion only tag nodes remain (C14_all_nodes)"),
             Lemma("L_flat_atoms", [("l", "ChildList")], "allAtomChildren(flatC(l))", "by simpa using flatC_atoms l", imports=("HV.C14b",),
                   why="the flattening contains no None and no nested list (allAtoms_flatC)"),
+            Lemma("L_nodes_ofNodes_any", [("l", "NodeList")], "nodes(ofNodes(l)) == l and not bad(ofNodes(l))",
+                  "by simp [(C14_nodes_ofNodes l).1, (C14_nodes_ofNodes l).2]", imports=("HV.C14",),
+                  why="a TagList returned by tagify() is spliced unchanged (stored nodes re-normalise to themselves)"),
             Lemma("L_nodes_taglist_first", [("l", "NodeList"), ("r", "ChildList")],
                   "nodes(CCons(CSeq(2, ofNodes(l)), r)) == nappend(l, nodes(r)) and bad(CCons(CSeq(2, ofNodes(l)), r)) == bad(r)",
                   "by simp [C14_nodes_taglist_child, bad_cons_seq, (C14_nodes_ofNodes l).2]", imports=("HV.C14",), why="a TagList passed as a child is spliced unchanged"),
